@@ -69,7 +69,8 @@ Elems == {PKey(s) : s \in KeyNames} \cup {PIdx(i) : i \in 0..2}
 RECURSIVE PathsUpTo(_)
 PathsUpTo(n) == IF n = 0 THEN {<<>>}
                 ELSE LET P == PathsUpTo(n - 1) IN P \cup {Append(p, e) : p \in {q \in P : Len(q) = n - 1}, e \in Elems}
-Paths == (PathsUpTo(PathLen) \ {<<>>}) \cup {<<PSelf>>, <<PSkip>>}
+\* plain paths, the two reserved one-step paths, and plain paths followed by SELF ("the node at that path itself")
+Paths == (PathsUpTo(PathLen) \ {<<>>}) \cup {<<PSelf>>, <<PSkip>>} \cup {Append(q, PSelf) : q \in PathsUpTo(PathLen - 1) \ {<<>>}}
 NewVals == {Leaf(7), Dict(<<KeyA>>, <<Leaf(8)>>), List(<<>>)}
 
 \* ------------------------------------------------------------------ transitions
@@ -93,10 +94,15 @@ Prefix(p, q) == Len(p) <= Len(q) /\ SubSeq(q, 1, Len(p)) = p
 Disjoint(p, q) == ~Prefix(p, q) /\ ~Prefix(q, p)
 Plain(p) == \A j \in 1..Len(p) : p[j].t \in {"key", "idx"}
 
+SelfEnd(p) == Len(p) >= 2 /\ p[Len(p)].t = "self" /\ Plain(SubSeq(p, 1, Len(p) - 1))
 GetAfterSet ==
   \A p \in Paths, v \in NewVals :
     LET r == Set(tree, p, v) IN
-    (~IsErr(r) /\ Plain(p)) => Get(r, p) = v
+    (~IsErr(r) /\ (Plain(p) \/ SelfEnd(p))) => Get(r, p) = v
+\* a trailing SELF names the node at the path before it: reading and writing through it is reading and writing that path
+SelfEndIsThePath ==
+  \A p \in Paths, v \in NewVals :
+    SelfEnd(p) => LET q == SubSeq(p, 1, Len(p) - 1) IN Set(tree, p, v) = Set(tree, q, v) /\ Get(tree, p) = Get(tree, q)
 Frame ==
   \A p \in Paths, q \in Paths, v \in NewVals :
     LET r == Set(tree, p, v) IN
